@@ -78,10 +78,10 @@ META = {
         "opening line bound to a probe) on eighteen (opener, line) probes, closes the block exactly where the markdown-it front_matter rule does: dashes at least as long as the "
         "opener, indented by 0-3 spaces, followed by spaces only, or a bare '...' line (sibling source re-read for the five facts behind the probe table). "
         "R13: because Sphinx's i18n transform re-parses every msgstr under a ':<translated>' source without front matter (sibling re-read), MystParser.parse stores the config "
-        "the document is rendered with (no assignment to that variable between the store and create_md_parser, whichever function performs the merge) in the per-read store "
+        "the document is rendered with (no assignment to that variable between the store and the call that obtains the parser whose .render() is used - create_md_parser or any factory/cache in front of it -, whichever function performs the merge) in the per-read store "
         "of the environment and starts from it, under a guard, for such sources. "
         "R14: every option-dependent deprecation notice that exists anywhere (builder or a front end: `<const> in <config>.<field>` guarding a MystWarnings.DEPRECATED emission) "
-        "is decided in BOTH front-end parse functions on the config variable that reaches create_md_parser, with no later assignment to it. "
+        "is decided in BOTH front-end parse functions on the config variable handed to the call that obtains the parser the document is rendered with, with no later assignment to it. "
         "The per-field update is located by role (the function that calls validate_field, reached from merge_file_level directly or through one or two "
         "module-level helpers with parameters substituted), so splitting merge_file_level into helpers keeps every rule deciding."
     ),
@@ -2644,6 +2644,26 @@ def r12_topmatter_block_as_markdown_delimits_it(corpus: Corpus, rep: Report, tie
 # R13 re-parses of a part of a document start from the document's file-level config
 
 
+def _render_config_var(f: FunctionInfo) -> tuple[str, ast.Call] | None:
+    """(config local, call) for the call that obtains the markdown-it parser the document is rendered with: the
+    receiver of ``<parser>.render(...)`` is assigned from a call - create_md_parser or any factory/cache in front of
+    it - that takes a config-typed local of the function as an argument."""
+    cfgs = _cfg_names(f, {})
+    receivers = {n.func.value.id for n in f.local_nodes() if isinstance(n, ast.Call) and isinstance(n.func, ast.Attribute) and n.func.attr == "render" and isinstance(n.func.value, ast.Name)}
+    cands = []
+    for n in f.local_nodes():
+        if isinstance(n, ast.Assign) and isinstance(n.value, ast.Call) and any(isinstance(t, ast.Name) and t.id in receivers for t in n.targets):
+            args = [a for a in list(n.value.args) + [k.value for k in n.value.keywords] if isinstance(a, ast.Name) and a.id in cfgs]
+            if args:
+                cands.append((args[0].id, n.value))
+    if not cands:
+        # direct spelling, e.g. create_md_parser(config, R).render(text)
+        for c in f.local_nodes():
+            if isinstance(c, ast.Call) and (dotted(c.func) or "").rsplit(".", 1)[-1] == "create_md_parser" and c.args and isinstance(c.args[0], ast.Name):
+                cands.append((c.args[0].id, c))
+    return cands[0] if cands else None
+
+
 @rule("C13.R13")
 def r13_reparse_uses_file_level_config(corpus: Corpus, rep: Report, tier: str):
     rep.rule(
@@ -2665,10 +2685,11 @@ def r13_reparse_uses_file_level_config(corpus: Corpus, rep: Report, tier: str):
     mod = f.module
     k = f"{f.fq}|translated messages start from the file-level config"
     # the config that reaches create_md_parser
-    mk = [c for c in f.local_nodes() if isinstance(c, ast.Call) and (dotted(c.func) or "").rsplit(".", 1)[-1] == "create_md_parser" and c.args and isinstance(c.args[0], ast.Name)]
-    if not mk:
-        raise Unsupported("MystParser.parse: create_md_parser(<config>, ...) not found")
-    cvar = mk[0].args[0].id
+    found = _render_config_var(f)
+    if found is None:
+        raise Unsupported("MystParser.parse: the call that builds the parser from the document's config was not found")
+    cvar, mk0 = found
+    mk = [mk0]
 
     def per_doc_store(e: ast.AST) -> str | None:
         """Key text when ``e`` is a per-read store of the environment: env.temp_data[...] / .get(...)."""
@@ -2708,7 +2729,7 @@ def r13_reparse_uses_file_level_config(corpus: Corpus, rep: Report, tier: str):
 
     stale = [n for n in cfg.nodes if n is not wr and assigns_cvar(n) and cfg.paths_avoiding(wr, n, lambda x: False) and cfg.paths_avoiding(n, mk_st, lambda x: False) and n is not rd]
     if stale:
-        rep.violation("C13.R13", k, mod.site(wr), f"`{short(wr, 50)}` stores the config before it is final: `{short(stale[0], 60)}` changes `{cvar}` between the store and create_md_parser, so re-parsed messages start from a config without that step (e.g. without the front matter merged in)")
+        rep.violation("C13.R13", k, mod.site(wr), f"`{short(wr, 50)}` stores the config before it is final: `{short(stale[0], 60)}` changes `{cvar}` between the store and the call that builds the parser, so re-parsed messages start from a config without that step (e.g. without the front matter merged in)")
     elif not gr:
         rep.violation("C13.R13", k, mod.site(rd), f"`{short(rd, 60)}` replaces the starting config for every parse, not only for re-parsed messages")
     else:
@@ -2750,10 +2771,10 @@ def r14_option_notices_use_the_document_config(corpus: Corpus, rep: Report, tier
     fronts: list[tuple[FunctionInfo, str, ast.Call]] = []
     for fq in ("parsers.docutils_:Parser.parse", "parsers.sphinx_:MystParser.parse"):
         f = corpus.func(fq)
-        mk = [c for c in f.local_nodes() if isinstance(c, ast.Call) and (dotted(c.func) or "").rsplit(".", 1)[-1] == "create_md_parser" and c.args and isinstance(c.args[0], ast.Name)]
-        if not mk:
-            raise Unsupported(f"{fq}: create_md_parser(<config>, ...) not found")
-        fronts.append((f, mk[0].args[0].id, mk[0]))
+        found = _render_config_var(f)
+        if found is None:
+            raise Unsupported(f"{fq}: the call that builds the parser from the document's config was not found")
+        fronts.append((f, found[0], found[1]))
     # the notices that exist anywhere (global builder or a front end)
     notices: dict[tuple[str, str], str] = {}
     scan = [corpus.func("sphinx_ext.main:create_myst_config")] + [f for f, _, _ in fronts]
